@@ -79,6 +79,13 @@ func profileByName(name string) Profile {
 		p.Reopen = 25
 		p.Txs = 14
 		p.Segs = []int{150, 200, 300}
+	case "bigtx":
+		// long write transactions interleaving several buckets with order-sensitive blind writes (C13)
+		p.WKV, p.WList, p.WSet, p.WZSet = 2, 3, 2, 3
+		p.OpsMin, p.OpsMax = 8, 22
+		p.Txs = 6
+		p.Oversize, p.Abort, p.ReadOnly, p.DoneCalls = 0, 5, 5, 0
+		p.Segs = []int{400, 1000, 100000}
 	case "raw":
 		// transactions that read, pop or validate structures they already modified (C13)
 		p.WKV, p.WList, p.WSet, p.WZSet = 2, 3, 2, 3
